@@ -189,6 +189,20 @@ do_ip (long *v, int nv)
         const char *p;
         for (int i = 0; i < ni; i++) if (in[i] == ':') colon = 1;
         p = place (in, ni, 0, -1);
+        /* C01: an untagged literal starting with a digit is judged by the public is_ipaddr on the bracket content; whatever the
+         * high-level functions decide must be that validator's decision (the spelling is tolerated by C05, not pinned) */
+        if (n >= 3 && d[0] == '[' && d[n - 1] == ']' && ni == n - 2 && ni > 0 && in[0] >= '0' && in[0] <= '9' && n > 8) {
+            int comp;
+            const char *q;
+            unplace ();
+            q = place (buf, n + 2, 0, -1);               /* the whole address "x@[...]": the content is validated in place */
+            comp = is_ipaddr (q + 3, q + 2 + n - 1);
+            unplace ();
+            p = place (in, ni, 0, -1);
+            cnt.checked++; cnt.pinned++;
+            if ((comp != 0) != (first_rc == 0))
+                viol ("literal", "composition", 0, 0, d, n, comp ? 0 : -EEAV_IPADDR_INVALID, first_rc, mrc);
+        }
         sandwich ("ipv4", in, ni, (int) y[0], is_ipv4 (p, p + ni), (int) y[2]);
         sandwich ("ipv6", in, ni, (int) y[1], is_ipv6 (p, p + ni), (int) y[3]);
         sandwich ("ipaddr", in, ni, colon ? (int) y[1] : (int) y[0], is_ipaddr (p, p + ni), (int) y[4]);
@@ -306,12 +320,10 @@ do_email (long *v, int nv)
                 const char *c = D + 1, *ce = end - 1;
                 int colon = memchr (c, ':', ce - c) != NULL;
                 if (!colon && ISDIGIT_C (*c)) want = is_ipv4 (c, ce) ? 0 : -EEAV_IPADDR_INVALID;
-                else if (colon && ISDIGIT_C (*c) && ce - c < 200) {
+                else if (colon && ISDIGIT_C (*c)) {
                     /* untagged spelling starting with a digit: whatever is decided must be what the public is_ipaddr says of the
-                     * bracket content (it is handed the content NUL-terminated here) */
-                    char tmp[256];
-                    memcpy (tmp, c, ce - c); tmp[ce - c] = 0;
-                    want = is_ipaddr (tmp, tmp + (ce - c)) ? 0 : -EEAV_IPADDR_INVALID;
+                     * bracket content, called in place (start / end pointers into the address, as the library itself would) */
+                    want = is_ipaddr (c, ce) ? 0 : -EEAV_IPADDR_INVALID;
                 }
                 else if (ce - c > 5 && memcmp (c, "IPv6:", 5) == 0) want = is_ipv6 (c + 5, ce) ? 0 : -EEAV_IPADDR_INVALID;
                 if (want == -EEAV_IPADDR_INVALID && rc < 0) want = rc;      /* which ip-addr code is reported is not pinned */
